@@ -9,7 +9,8 @@ CHUNK = 4
 CASE_TIMEOUT = 900
 REQUIRED_COUNTERS = ["round_trips", "result_cells_checked"]
 RULE = ("synthetic lists of PmappingGroups per Einsum (1-3 Einsums, 1-4 groups each, 0/1/many rows, per-group column sets) "
-        "whose every non-joining cell holds a unique token (einsum, group, row, column); compress_einsum2pmappings, then a "
+        "whose every non-joining cell holds a unique token (einsum, group, row, column) - or, in a third of the items, a value "
+        "from a tiny set so that distinct source rows carry identical details; compress_einsum2pmappings, then a "
         "stand-in for the join that selects compressed-index patterns (first/last row of each group, repeated indices, "
         "only the last group, reversed, random), then decompress_pmappings; every result cell must equal the token of the "
         "source row named by its compressed index (NaN where the source group lacks the column). non-trivial = >= 2 "
@@ -40,10 +41,14 @@ def gen_item(rnd):
             groups[0]["rows"] = 2
         einsums[f"E{e}"] = groups
     pattern = rnd.choice(["first_of_each", "last_of_each", "repeated", "last_group_only", "reversed", "random", "single_row"])
-    return {"einsums": einsums, "pattern": pattern, "sel_seed": rnd.randrange(2**31)}
+    # "dup": detail cells drawn from a tiny value set, so DISTINCT source rows (distinct compressed indices) often carry
+    # identical detail values - identity must come from the index, not from the values
+    return {"einsums": einsums, "pattern": pattern, "sel_seed": rnd.randrange(2**31), "values": rnd.choice(["unique", "unique", "dup"])}
 
 
-def token(e, g, r, c, numeric):
+def token(e, g, r, c, numeric, dup=None):
+    if dup is not None:
+        return float(dup.choice([0, 1, 2])) if numeric else dup.choice(["tmpl-a", "tmpl-b"])
     if numeric:
         return float((int(e[1:]) * 97 + g * 31 + r) * 8 + (hash(c) % 7))   # small, exact in float32
     return f"{e}|{g}|{r}|{c}"
@@ -67,6 +72,7 @@ def check_item(item, counters):
 
     e2p, source = {}, {}
     marker = 0
+    dup = random.Random(item["sel_seed"] + 1) if item.get("values") == "dup" else None
     for e, groups in item["einsums"].items():
         lst = []
         for gi, g in enumerate(groups):
@@ -80,7 +86,7 @@ def check_item(item, counters):
                 src = {}
                 for c in g["cols"]:
                     numeric = "mapping" not in c
-                    src[c] = token(e, gi, r, c, numeric)
+                    src[c] = token(e, gi, r, c, numeric, dup)
                     data[c].append(src[c])
                 source[(e, float(marker))] = src
             df = pd.DataFrame(data)
